@@ -370,6 +370,7 @@ macro "val_side" : tactic => `(tactic| first
 /-- one structural step of a `Keeps (PInv d)` proof -/
 macro "keeps_step" : tactic => `(tactic| with_reducible first
   | exact Keeps.pure trivial
+  | exact Keeps.pure (φ := fun _ => True) trivial
   | exact Keeps.throw _
   | exact keeps_lex_parseString
   | exact keeps_lex_parseNameString (by assumption)
@@ -386,7 +387,7 @@ macro "keeps_step" : tactic => `(tactic| with_reducible first
   | exact keeps_tree (fun _ ht => kt_free ht _)
   | exact keeps_modify _ (fun _ => ⟨rfl, rfl⟩)
   | assumption
-  | apply_assumption
+  | apply_assumption -exfalso
   | (apply Keeps.tt; assumption)
   | apply Keeps.bind
   | intro _
@@ -454,6 +455,277 @@ theorem keeps_simpleName (obj : Nat) : Keeps (PInv d) (simpleName d obj) (fun _ 
   have h2 := @keeps_setOpcode d
   have h3 := @keeps_finishSimpleArg d
   keeps_tac
+
+include hd in
+theorem keeps_parseSimpleArg (argType : Nat) : Keeps (PInv d) (parseSimpleArg d argType) (fun _ => True) := by
+  unfold parseSimpleArg
+  have h1 := @keeps_simpleNum d
+  have h2 := @keeps_simpleString d
+  have h3 := keeps_simpleName hd
+  keeps_tac
+
+/-! ### the byte-list cases (the slice depends on the reader state at the call) -/
+
+theorem bind_ok {α β : Type} {x : P α} {f : α → P β} {s s' : PState} {b : β}
+    (e : (x >>= f) s = .ok (b, s')) : ∃ a s1, x s = .ok (a, s1) ∧ f a s1 = .ok (b, s') := by
+  have e' : (StateT.bind x f) s = .ok (b, s') := e
+  simp only [StateT.bind] at e'
+  cases hx : x s with
+  | error err => rw [hx] at e'; cases e'
+  | ok as => obtain ⟨a, s1⟩ := as; rw [hx] at e'; exact ⟨a, s1, rfl, e'⟩
+
+theorem lex_run {α : Type} {x : LexM α} {s s' : PState} {a : α} (e : lex x s = .ok (a, s')) :
+    ∃ r', x s.r = .ok (a, r') ∧ s' = { s with r := r' } := by
+  unfold lex at e
+  cases hx : x s.r with
+  | error err => simp [hx, bind, Except.bind] at e
+  | ok ar => obtain ⟨a1, r1⟩ := ar; simp only [hx, bind, Except.bind, pure, Except.pure] at e; cases e; exact ⟨r1, rfl, rfl⟩
+
+theorem updObj_run {i : Nat} {f : Obj → Obj} {s s' : PState} {a : Unit} (e : updObj i f s = .ok (a, s')) :
+    s'.r = s.r ∧ s.tree.upd i f = .ok s'.tree := by
+  unfold updObj tree at e
+  cases hx : s.tree.upd i f with
+  | error err => simp [hx, bind, Except.bind] at e
+  | ok t1 => simp only [hx, bind, Except.bind, pure, Except.pure] at e; cases e; exact ⟨rfl, rfl⟩
+
+theorem newObject_run {op i : Nat} {s s' : PState} (e : newObject op s = .ok (i, s')) :
+    s'.r = s.r ∧ ∃ t1, s.tree.newObject op (pOpcodeTableIndex op true) s.tableHandle = .ok (t1, i) ∧ s'.tree = t1 := by
+  unfold newObject at e
+  cases hx : s.tree.newObject op (pOpcodeTableIndex op true) s.tableHandle with
+  | error err => simp [hx, bind, Except.bind] at e
+  | ok r => obtain ⟨t1, j⟩ := r; simp only [hx, bind, Except.bind, pure, Except.pure] at e; cases e; exact ⟨rfl, t1, rfl, rfl⟩
+
+/-- `parseByteList(obj, n)` from a state where the `n` bytes fit below `pkgEnd` (or the reader is at EOF) -/
+theorem parseByteList_keeps (obj n : Nat) (s : PState) (hs : PInv d s)
+    (hfit : s.r.pkgEnd ≤ s.r.offset ∨ s.r.offset + n ≤ s.r.pkgEnd) :
+    ∀ a s', parseByteList d obj n s = .ok (a, s') → PInv d s' := by
+  intro a s' e
+  unfold parseByteList at e
+  obtain ⟨_, s1, e1, e⟩ := bind_ok e
+  obtain ⟨_, s2, e2, e⟩ := bind_ok e
+  obtain ⟨sl, s3, e3, e⟩ := bind_ok e
+  have k1 := (keeps_updObj (d := d) _ _ (by val_side)).run s hs _ _ e1
+  have r1 := (updObj_run e1).1
+  have k2 := (keeps_updObj (d := d) _ _ (by val_side)).run s1 k1.1 _ _ e2
+  have r2 := (updObj_run e2).1
+  have hfit2 : s2.r.pkgEnd ≤ s2.r.offset ∨ s2.r.offset + n ≤ s2.r.pkgEnd := by rw [r2, r1]; exact hfit
+  obtain ⟨r3, x3, hs3⟩ := lex_run e3
+  obtain ⟨sl', r', ew, hi', hsl⟩ := parseByteListRaw_slice d n s2.r k2.1.1 hfit2
+  rw [ew] at x3; cases x3
+  have k3 : PInv d s3 := by rw [hs3]; exact ⟨hi', k2.1.2⟩
+  exact ((keeps_updObj (d := d) _ _ (by intro _ _; exact valIn_sliceVal hsl)).run s3 k3 _ _ e).1
+
+theorem reader_run {s s' : PState} {r : Reader} (e : reader s = .ok (r, s')) : r = s.r ∧ s' = s := by
+  cases e; exact ⟨rfl, rfl⟩
+
+theorem pure_run {α : Type} {a b : α} {s s' : PState} (e : (pure a : P α) s = .ok (b, s')) : b = a ∧ s' = s := by
+  cases e; exact ⟨rfl, rfl⟩
+
+include hd in
+theorem keeps_parseByteListArg : Keeps (PInv d) (parseByteListArg d) (fun _ => True) := by
+  constructor
+  intro s hs a s' e
+  unfold parseByteListArg at e
+  obtain ⟨argObj, s1, e1, ea⟩ := bind_ok e
+  obtain ⟨r, s2, e2, eb⟩ := bind_ok ea
+  obtain ⟨_, s3, e3, ec⟩ := bind_ok eb
+  have k1 := (keeps_newObject (d := d) _).run s hs _ _ e1
+  obtain ⟨hr, hs2⟩ := reader_run e2
+  rw [hs2] at e3; rw [hr] at e3
+  have hfit := byteListArg_fits d (by omega) s1.r k1.1.1
+  have k3 := parseByteList_keeps argObj _ s1 k1.1 hfit _ _ e3
+  obtain ⟨_, hs'⟩ := pure_run ec
+  rw [hs']
+  exact ⟨k3, trivial⟩
+
+theorem keeps_connBufferFinish (origPkgEnd origOffset pkgLen dataLen : Nat) :
+    Keeps (PInv d) (connBufferFinish d origPkgEnd origOffset pkgLen dataLen) (fun _ => True) := by
+  constructor
+  intro s hs a s' e
+  unfold connBufferFinish at e
+  obtain ⟨r, s0, e0, ea⟩ := bind_ok e
+  obtain ⟨hr, hs0⟩ := reader_run e0
+  rw [hs0, hr] at ea
+  split at ea
+  · obtain ⟨_, hs'⟩ := pure_run ea
+    rw [hs']; exact ⟨hs, trivial⟩
+  · rename_i hle
+    obtain ⟨connArg, s1, e1, eb⟩ := bind_ok ea
+    obtain ⟨_, s2, e2, ec⟩ := bind_ok eb
+    obtain ⟨_, s3, e3, ed⟩ := bind_ok ec
+    obtain ⟨_, s4, e4, ee⟩ := bind_ok ed
+    obtain ⟨_, s5, e5, ef⟩ := bind_ok ee
+    have k1 := (keeps_newObject (d := d) _).run s hs _ _ e1
+    have r1 := (newObject_run e1).1
+    have k2 := (keeps_updObj (d := d) _ _ (by val_side)).run s1 k1.1 _ _ e2
+    have r2 := (updObj_run e2).1
+    have hfit : s2.r.pkgEnd ≤ s2.r.offset ∨ s2.r.offset + u32 dataLen ≤ s2.r.pkgEnd := by
+      right; rw [r2, r1]
+      have : u32 dataLen ≤ dataLen := Nat.mod_le _ _
+      omega
+    have k3 := parseByteList_keeps connArg _ s2 k2.1 hfit _ _ e3
+    have k4 := (keeps_lex_safe (d := d) (safe_setPkgEnd d origPkgEnd)).run s3 k3 _ _ e4
+    have k5 := (keeps_lex_safe (d := d) (safe_setOffset d _)).run s4 k4.1 _ _ e5
+    obtain ⟨_, hs'⟩ := pure_run ef
+    rw [hs']
+    exact ⟨k5.1, trivial⟩
+
+/-! ### field lists -/
+
+theorem keeps_setNameByte (field i : Nat) (b : UInt8) : Keeps (PInv d) (setNameByte field i b) (fun _ => True) := by
+  unfold setNameByte; keeps_tac
+
+theorem keeps_readFieldName (field n i : Nat) : Keeps (PInv d) (readFieldName d field n i) (fun _ => True) := by
+  induction n generalizing i with
+  | zero => unfold readFieldName; keeps_tac
+  | succ n ih =>
+    unfold readFieldName
+    have h := @keeps_setNameByte d
+    keeps_tac
+
+theorem keeps_fieldReserved (st : FieldSt) : Keeps (PInv d) (fieldReserved d st) (fun _ => True) := by
+  unfold fieldReserved; keeps_tac
+theorem keeps_fieldAccess (st : FieldSt) : Keeps (PInv d) (fieldAccess d st) (fun _ => True) := by
+  unfold fieldAccess; keeps_tac
+theorem keeps_fieldExtAccess (st : FieldSt) : Keeps (PInv d) (fieldExtAccess d st) (fun _ => True) := by
+  unfold fieldExtAccess; keeps_tac
+theorem keeps_connBufferLen (o p : Nat) : Keeps (PInv d) (connBufferLen d o p) (fun _ => True) := by
+  unfold connBufferLen; keeps_tac
+
+theorem keeps_connBuffer : Keeps (PInv d) (connBuffer d) (fun _ => True) := by
+  unfold connBuffer
+  have h1 := @keeps_connBufferLen d
+  have h2 := @keeps_connBufferFinish d
+  keeps_tac
+
+include hd in
+theorem keeps_connName : Keeps (PInv d) (connName d) (fun _ => True) := by
+  unfold connName
+  have h1 := keeps_setNameValue hd
+  keeps_tac
+
+include hd in
+theorem keeps_fieldConnection (curObj : Nat) (st : FieldSt) : Keeps (PInv d) (fieldConnection d curObj st) (fun _ => True) := by
+  unfold fieldConnection
+  have h1 := @keeps_connBuffer d
+  have h2 := keeps_connName hd
+  keeps_tac
+
+set_option maxRecDepth 10000 in
+theorem keeps_fieldNamed (curObj : Nat) (st : FieldSt) : Keeps (PInv d) (fieldNamed d curObj st) (fun _ => True) := by
+  unfold fieldNamed
+  have h1 := @keeps_readFieldName d
+  keeps_tac
+
+include hd in
+theorem keeps_fieldStep (curObj : Nat) (st : FieldSt) : Keeps (PInv d) (fieldStep d curObj st) (fun _ => True) := by
+  unfold fieldStep
+  have h1 := @keeps_fieldReserved d
+  have h2 := @keeps_fieldAccess d
+  have h3 := @keeps_fieldExtAccess d
+  have h4 := keeps_fieldConnection hd
+  have h5 := @keeps_fieldNamed d
+  keeps_tac
+
+include hd in
+theorem keeps_fieldLoop (curObj f : Nat) (st : FieldSt) : Keeps (PInv d) (fieldLoop d curObj f st) (fun _ => True) := by
+  induction f generalizing st with
+  | zero => unfold fieldLoop; keeps_tac
+  | succ f ih =>
+    unfold fieldLoop
+    have h1 := keeps_fieldStep hd
+    keeps_tac
+
+theorem keeps_u64Value (i : Nat) : Keeps (PInv d) (u64Value i) (fun _ => True) := by
+  unfold u64Value; keeps_tac
+
+include hd in
+theorem keeps_parseFieldElements (curObj : Nat) : Keeps (PInv d) (parseFieldElements d curObj) (fun _ => True) := by
+  unfold parseFieldElements
+  have h1 := keeps_fieldLoop hd
+  have h2 := @keeps_u64Value d
+  keeps_tac
+
+/-! ### the first pass -/
+
+theorem keeps_namePathOrCallObject (o : Nat) (sl : Slice) (hsl : SliceIn d sl) :
+    Keeps (PInv d) (namePathOrCallObject o sl) (fun _ => True) := by
+  unfold namePathOrCallObject; keeps_tac
+
+theorem keeps_parsePkgLenArg (info curObj : Nat) : Keeps (PInv d) (parsePkgLenArg d info curObj) (fun _ => True) := by
+  unfold parsePkgLenArg
+  have h1 := @keeps_pushPkgEnd d
+  keeps_tac
+
+theorem keeps_newScopeBlock : Keeps (PInv d) newScopeBlock (fun _ => True) := by
+  unfold newScopeBlock
+  have h1 := @keeps_scopeEnter d
+  keeps_tac
+
+/-- the nine mutually recursive functions of the object parser keep the invariant -/
+structure FirstPassKeeps (d : Bytes) (f : Nat) : Prop where
+  nextObject : Keeps (PInv d) (parseNextObject d f) (fun _ => True)
+  objectArgs : ∀ c, Keeps (PInv d) (parseObjectArgs d f c) (fun _ => True)
+  args : ∀ i c a, Keeps (PInv d) (parseArgs d f i c a) (fun _ => True)
+  arg : ∀ i c a, Keeps (PInv d) (parseArg d f i c a) (fun _ => True)
+  termList : Keeps (PInv d) (termListLoop d f) (fun _ => True)
+  namePath : Keeps (PInv d) (parseNamePathOrMethodCall d f) (fun _ => True)
+  methodArgs : ∀ n, Keeps (PInv d) (methodArgsLoop d f n) (fun _ => True)
+  strictTermArg : ∀ c, Keeps (PInv d) (parseStrictTermArg d f c) (fun _ => True)
+  target : Keeps (PInv d) (parseTarget d f) (fun _ => True)
+
+set_option maxRecDepth 10000 in
+set_option maxHeartbeats 1600000 in
+include hd in
+theorem firstPassKeeps (f : Nat) : FirstPassKeeps d f := by
+  induction f with
+  | zero =>
+    constructor
+    · unfold parseNextObject; exact Keeps.throw _
+    · intro c; unfold parseObjectArgs; exact Keeps.throw _
+    · intro i c a; unfold parseArgs; exact Keeps.throw _
+    · intro i c a; unfold parseArg; exact Keeps.throw _
+    · unfold termListLoop; exact Keeps.throw _
+    · unfold parseNamePathOrMethodCall; exact Keeps.throw _
+    · intro n; unfold methodArgsLoop; exact Keeps.throw _
+    · intro c; unfold parseStrictTermArg; exact Keeps.throw _
+    · unfold parseTarget; exact Keeps.throw _
+  | succ f ih =>
+    have i1 := ih.nextObject
+    have i2 := ih.objectArgs
+    have i3 := ih.args
+    have i4 := ih.arg
+    have i5 := ih.termList
+    have i6 := ih.namePath
+    have i7 := ih.methodArgs
+    have i8 := ih.strictTermArg
+    have i9 := ih.target
+    have g1 := @keeps_setNumValue d
+    have g2 := @keeps_setStringValue d
+    have g3 := keeps_setNameValue hd
+    have g4 := keeps_parseSimpleArg hd
+    have g5 := keeps_parseByteListArg hd
+    have g6 := @keeps_parsePkgLenArg d
+    have g7 := keeps_parseFieldElements hd
+    have g8 := @keeps_newScopeBlock d
+    have g9 := @keeps_scopeEnter d
+    have g10 := @keeps_scopeExit d
+    have g11 := @keeps_popPkgEnd d
+    have g12 := @keeps_u64Value d
+    have g13 := @keeps_namePathOrCallObject d
+    constructor
+    · unfold parseNextObject; keeps_tac
+    · intro c; unfold parseObjectArgs; keeps_tac
+    · intro i c a; unfold parseArgs; keeps_tac
+    · intro i c a; unfold parseArg; keeps_tac
+    · unfold termListLoop; keeps_tac
+    · unfold parseNamePathOrMethodCall; keeps_tac
+    · intro n
+      cases n with
+      | zero => unfold methodArgsLoop; exact Keeps.pure trivial
+      | succ n => unfold methodArgsLoop; keeps_tac
+    · intro c; unfold parseStrictTermArg; keeps_tac
+    · unfold parseTarget; keeps_tac
 
 end
 
